@@ -24,58 +24,123 @@ COMMON_NOTE = (
 PROPS = {
     "C01": dict(
         text="Bounded model checking of kernels: panic-freedom (unwrap/expect, slice indexing, assert!, arithmetic overflow, "
-             "unreachable!) of the real float->integer conversions, UTF-8 decoder, span manager, radix parser, JSON lexer, "
-             "escaper and numeric builtins, each for ALL inputs inside its bound (e.g. all 2^64 doubles, all 4-byte windows). "
-             "This is the level the technique can reach: the property's full quantifier (all programs through the whole "
-             "pipeline, process exit status, native stack) is not encodable and is not claimed.",
+             "unreachable!) of the real float->integer conversions (all 2^64 doubles), the UTF-8 decoder (all 4-byte windows), the "
+             "operator scanner, the span manager, the slice-range arithmetic and the numeric step functions, each for ALL inputs "
+             "inside its bound; in the thorough tier every harness of every property serves C01 (each decides panic-freedom of the "
+             "code it calls). This is the level the technique can reach: the property's full quantifier (all programs through the "
+             "whole pipeline, the process exit status, the native stack) is not encodable and is not claimed.",
         note="Out: whole-pipeline runs on arbitrary programs, the inline arms of Evaluator::run, everything behind f64 % f64 "
-             "(fmod is not decidable by CBMC here), the YAML parser, native stack depth, the CLI's exit status.",
-        ref="DESIGN.md section 6 C01"),
+             "(fmod is not decidable by CBMC here), the YAML parser, native stack depth, the CLI's exit status, panics raised "
+             "inside core::fmt (stubbed).",
+        ref="DESIGN.md section 6 C01, section 11"),
+    "C02": dict(
+        text="Bounded model checking of the arithmetic kernels of the core language at their Rust entry point: + - * / (IEEE "
+             "result or error, division by +-0), & | ^ << >> against the specification written out in the harness (safe-integer "
+             "range, shift count modulo 64, negative counts, lost bits), and the slice-range arithmetic, for all finite doubles.",
+        note="Out: everything that needs the interpreter loop (locals, closures, comprehensions, self/super/$ resolution, object "
+             "locals, asserts, error), parameter binding, the % operator (fmod), comparison operators (inline in Evaluator::run).",
+        ref="DESIGN.md section 6 C02, section 11"),
+    "C03": dict(
+        text="Bounded model checking of trace completeness: the real GcTrace implementations of every heap data type "
+             "(ThunkData/ThunkState/PendingThunk, ValueData, ThunkEnv/ThunkEnvData/ThunkEnvObject, FuncData/FuncKind, "
+             "ObjectData/ObjectLayer/ObjectField/ObjectFieldData) are run under the collector's real count and mark contexts on "
+             "values whose every handle points to a distinct object; each target must be visited exactly once. A skipped or doubled "
+             "field is what makes the collector reclaim a reachable object or leak an unreachable one.",
+        note="Out (not decided): exactness of GcContext::gc itself on symbolic heaps (not decided by CBMC even for two nodes), and "
+             "schedule independence of whole evaluations (interpreter loop).",
+        ref="DESIGN.md section 6 C03, section 11"),
+    "C04": dict(
+        text="Bounded model checking of the thunk protocol that implements call-by-need: the ThunkData state machine (a pending "
+             "payload is handed out exactly once, Done is absorbing) and the creation site used by every binding position "
+             "(new_pending_expr_thunk evaluates nothing but literals, and never turns a non-finite literal into a value).",
+        note="Out: that unused bindings of arbitrary programs are never forced, and the rewrite laws (interpreter loop).",
+        ref="DESIGN.md section 6 C04, section 11"),
     "C05": dict(
         text="Bounded model checking of the JSON string escaper shared by JSON/Python/TOML/YAML output over every Unicode scalar "
-             "value (valid RFC 8259 token + round trip through the crate's JSON lexer, itself tied to the RFC under C20) and of "
-             "the field-order computation (sorted, no duplicates, visibility) on symbolic layered objects.",
+             "value: byte-for-byte equality with a reference escaper per UTF-8 width class, plus RFC 8259 validity and decodability "
+             "of the reference escaper over all scalar values; the crate's JSON lexer is tied to the same RFC reference decoder "
+             "under C20, which closes the round trip.",
         note="Out: document structure (nesting, indentation, separators) of whole documents, number printing (Rust flt2dec, "
-             "trusted), rendering of the hex digits by core::fmt (stubbed by a direct rendering).",
-        ref="DESIGN.md section 6 C05"),
+             "trusted), the four hex digits rendered by core::fmt (stubbed: the harness decides which characters take the \\uXXXX "
+             "branch), field order (get_fields_order is beyond CBMC's reach, thorough-tier attempts only), the YAML/TOML plain-key "
+             "predicates.",
+        ref="DESIGN.md section 6 C05, section 11"),
     "C06": dict(
         text="Bounded model checking of every numeric producer's gate at its Rust entry point: Ok implies a finite result, for "
              "all finite arguments, with libm replaced by an arbitrary double (so the verdict is independent of the host libm); "
-             "one inductive step of std.sum/std.avg from an arbitrary finite accumulator; the JSON number lexer's finiteness gate.",
+             "one inductive step of std.sum/std.avg from an arbitrary finite accumulator; + - and the / gate; the literal-thunk "
+             "finiteness guard.",
         note="Out: %-based results (fmod), correct rounding of decimal literals and shortest printing (Rust dec2flt/flt2dec, trusted).",
-        ref="DESIGN.md section 6 C06"),
+        ref="DESIGN.md section 6 C06, section 11"),
     "C07": dict(
-        text="Bounded model checking of the object layer model: real ObjectData values with symbolic per-layer entries "
-             "(absent/default/hidden/forced/Removed marker) for two names; find_field, has_field, has_visible_field, "
-             "get_fields_order and get_visible_fields_order are compared with the specification's layer semantics and with each "
-             "other for every start layer. Associativity and identity follow from the layer-concatenation lemmas.",
-        note="Out: evaluation of field bodies (self/super inside expressions, +: fields, object asserts) - interpreter loop.",
-        ref="DESIGN.md section 6 C07"),
+        text="Bounded model checking of the object layer model: real ObjectData values of 3 layers with symbolic per-layer entries "
+             "(absent/default/hidden/forced/Removed marker) for two names; find_field, has_field (super lookup from every start "
+             "layer) and has_visible_field are compared with the specification's layer semantics. Thorough tier: 4 layers, "
+             "extend_object / objectRemoveKey / objectHasEx lemmas and get_fields_order templates (40 GB attempts).",
+        note="Out: evaluation of field bodies (self/super inside expressions, +: fields, object asserts) - interpreter loop; "
+             "get_fields_order (sorted field list, resolved visibility) is not decided in the quick tier.",
+        ref="DESIGN.md section 6 C07, section 11"),
+    "C09": dict(
+        text="Bounded model checking of the static analyzer on real syntax trees of fixed shape whose binder and use-site names are "
+             "symbolic (four interned identifiers, one never bound): locals (mutual recursion, repetition), function parameters and "
+             "defaults, import paths inside dead branches, positional-after-named arguments; verdict and error kind equal the "
+             "scoping judgment of the specification.",
+        note="Out: arbitrary nesting depth; object / comprehension / self-outside-object templates are thorough-tier; the run-time "
+             "half of the property (never an unbound variable at run time) needs evaluation.",
+        ref="DESIGN.md section 6 C09, section 11"),
     "C14": dict(
         text="Bounded model checking of the lexer's byte-level scanners: UTF-8 decoding against core::str::from_utf8 on every "
-             "1-4 byte buffer (character, consumed length, maximal invalid prefix).",
-        note="Out: inputs longer than the bounds.",
-        ref="DESIGN.md section 6 C14"),
+             "1-4 byte buffer (character, consumed length, maximal invalid prefix), operator maximal munch on every 4-byte input, "
+             "token tiling and error location on every 1-byte input (2-4 bytes in the thorough tier).",
+        note="Out: inputs longer than the bounds; literal values of strings, text blocks and numbers.",
+        ref="DESIGN.md section 6 C14, section 11"),
+    "C15": dict(
+        text="Bounded model checking of the parser on token vectors built directly: for every pair of the 19 binary operator "
+             "tokens `a op1 b op2 c` parses to the tree the precedence table and left associativity prescribe, a unary operator "
+             "binds tighter than any binary one, and node spans run from first to last token with children inside parents.",
+        note="Out: print-and-reparse stability (the code base has no printer), postfix forms and slices, objects, comprehensions, "
+             "error messages.",
+        ref="DESIGN.md section 6 C15, section 11"),
     "C16": dict(
         text="Bounded model checking of the span manager: round trip of (context, start, end) through SpanId for three contexts of "
              "arbitrary lengths up to 2^40, inline/interned decision at the exact bit boundaries, surrounding spans.",
-        note="Out: that every run-time error's span is in range (needs evaluation); the rendering itself (sourceannot, third-party).",
-        ref="DESIGN.md section 6 C16"),
-    "C20": dict(
-        text="Bounded model checking of the radix parser (value, first offending character, no panic around the 128-bit cut) and "
-             "of the JSON lexer (accept set, decoded value and consumed length against RFC 8259 references).",
-        note="Out: MD5/SHA digests, std.parseYaml (third-party parser), the value of str::parse::<f64> (trusted).",
-        ref="DESIGN.md section 6 C20"),
+        note="Out: that every run-time error's span is in range (needs evaluation); the rendering itself (sourceannot, third-party); "
+             "trace cropping.",
+        ref="DESIGN.md section 6 C16, section 11"),
+    "C17": dict(
+        text="Bounded model checking of the step contracts of std.sort / std.set / set operations / setMember / minArray / "
+             "maxArray: each real step function is run once from an arbitrary pre-state (cursors, permutation contents, comparison "
+             "outcomes, foreign outcomes below on the comparison stack) and its post-state is compared with the textbook step "
+             "(stable partition, stable merge taking the left element on ties, merge walks, binary search, strict improvement).",
+        note="Out: the composition argument (induction over the range length) is standard and written in the harness header, not "
+             "discharged by the solver; arrays longer than the bounds inside a single step; key functions other than the identity.",
+        ref="DESIGN.md section 6 C17, section 11"),
     "C18": dict(
-        text="Bounded model checking of the in-crate string builtins against a [char] oracle (code points, never bytes).",
-        note="Out: delimiters/patterns longer than 2 characters, strings longer than the bounds.",
-        ref="DESIGN.md section 6 C18"),
+        text="Bounded model checking of code-point semantics where it was reachable: string slices with negative bounds, std.length, "
+             "std.char / std.codepoint as mutual inverses over all scalar values, the radix parser reporting the offending "
+             "character, std.format field widths counted in characters - all on strings of arbitrary characters of every UTF-8 width.",
+        note="Out: substr/findSubstr/strip/split/join/replace identities, strings longer than 2 characters.",
+        ref="DESIGN.md section 6 C18, section 11"),
+    "C19": dict(
+        text="Bounded model checking of std.format's field padding (width counted in characters, justification) at both call "
+             "sites and of the sign / zero-padding decoration shared by the numeric directives.",
+        note="Out: the format-string parser and argument state machine, digit exactness (host formatter, fmod), panics inside "
+             "core::fmt (the formatter is stubbed).",
+        ref="DESIGN.md section 6 C19, section 11"),
+    "C20": dict(
+        text="Bounded model checking of the radix parser (value, first offending character) and of the JSON lexer (number "
+             "grammar and string tokens: accept set, decoded value and consumed length against RFC 8259 references).",
+        note="Out: MD5/SHA digests, std.parseYaml (third-party parser), the value of str::parse::<f64> (trusted), parse_json "
+             "document structure, base64.",
+        ref="DESIGN.md section 6 C20, section 11"),
 }
 
 # properties whose quick check has been run green on the unchanged tree by me
-READY = {"C01", "C06", "C16"}
+READY = {"C04", "C16"}
 
 NA_REASONS = {
+    "C08": "The ==/< state machine (EqualsValue/EqualsArray/EqualsObject, CompareValue/CompareArray) is written inline in Evaluator::run's match and has no function of its own to call; a single-step harness of run() makes execute_call, and through it every builtin, reachable (22 GB in goto-instrument; the reduced variant was not decided in 20 min). The only callable piece (do_std_primitive_equals) carries none of the structural laws the property states.",
+    "C10": "The frame-limit test and the InProgress check that reports infinite recursion are two lines inside Evaluator::run's loop (same obstacle as C08); depth behaviour of whole programs and the native stack are outside a bounded model checker's reach (no stack-depth model).",
     "C11": "Order-independence is a statement about sequences of whole evaluations (load/eval/gc/eval) sharing memoised thunks, the interner and the import cache; it needs the interpreter loop and Program::new (lexing/parsing/analysing the 2k-line stdlib) inside the encoding, and the GOTO program for a single Evaluator::run already exceeds 22 GB in goto-instrument. No kernel smaller than a whole evaluation carries this property.",
     "C12": "The contract is about a process: exit status, stdout/stderr, -o/-m files, closed or full stdout, environment variables. CBMC/Kani have no model of the OS and reject the FFI calls; main_inner is I/O from its first statement.",
     "C13": "Import resolution is Path::exists, canonicalize, fs::read over directory trees and symlinks - file-system state that cannot be made a symbolic variable here without replacing the very calls whose behaviour is the property.",
